@@ -2,6 +2,8 @@ package main
 
 import (
 	"fmt"
+	"go/types"
+	"go/constant"
 	"go/token"
 	"strings"
 
@@ -302,6 +304,8 @@ func checkC13(c *Ctx, r *Report) {
 	r.rule("C13.R2", "Heartbeat: lastHeartbeat refresh and NONE reply guarded by member present ∧ generation equal ∧ state==Stable", 2)
 	r.rule("C13.R3", "SyncGroup: NONE reply guarded by generation equal ∧ member present", 1)
 	r.rule("C13.R4", "who-may-write groupState.generationID: startRebalance (+1), restoreGroupState", 2)
+	r.rule("C13.R5", "group snapshots are written to the store in the order the state changed: every snapshot write (PutConsumerGroup, and the delete-when-empty in the same helper) runs with the coordinator's mutex held", 2)
+	checkPersistUnderLock(m, r, "C13.R5")
 	fence := Guard{cl(atomStateNonNil()), cl(atomMemberPresent()), cl(atomGenerationEqual())}
 
 	if oc := needFn(m, r, "C13.R1", pkgBrokerLib, "(*GroupCoordinator).OffsetCommit"); oc != nil {
@@ -584,6 +588,66 @@ func checkC14(c *Ctx, r *Report) {
 			}
 		}
 	}
+	// ---- R6 (added after a seeded change): once the group is Stable — the leader has synced — no
+	// member's SyncGroup is answered REBALANCE_IN_PROGRESS. Every such reply in SyncGroup is guarded
+	// by a test that excludes the Stable state (state == X for another state, or state != Stable).
+	r.rule("C14.R6", "SyncGroup answers REBALANCE_IN_PROGRESS only while the group is not Stable", 3)
+	if sg := needFn(m, r, "C14.R6", pkgBrokerLib, "(*GroupCoordinator).SyncGroup"); sg != nil {
+		stable, okStable := int64(0), false
+		if p := m.ByPath[pkgBrokerLib]; p != nil {
+			if cst, ok := p.Types.Scope().Lookup("groupStateStable").(*types.Const); ok {
+				if v, ok2 := constant.Int64Val(cst.Val()); ok2 {
+					stable, okStable = v, true
+				}
+			}
+		}
+		if !okStable {
+			r.unresolved("C14.R6", "groupStateStable constant", "not found")
+		} else {
+			notStable := Guard{cl(atomFn("state != Stable", func(l Lit) bool {
+				_, f, _, ok := fieldOf(l.X)
+				if !ok || f != "state" {
+					return false
+				}
+				k, ok := constInt(l.Y)
+				if !ok {
+					return false
+				}
+				return (l.Op == token.EQL && k != stable) || (l.Op == token.NEQ && k == stable)
+			}))}
+			n := 0
+			for _, fn := range withAnon(sg) {
+				_ = fn
+			}
+			for _, call := range callsIn(sg) {
+				// mkErrResp(code) closure calls and direct ErrorCode stores with the constant 27
+				args := call.Common().Args
+				if len(args) == 0 {
+					continue
+				}
+				k, ok := constInt(args[len(args)-1])
+				if !ok || k != 27 {
+					continue
+				}
+				isLocal := false
+				switch cv := strip(call.Common().Value).(type) {
+				case *ssa.MakeClosure:
+					isLocal = true
+				case *ssa.Function:
+					isLocal = cv.Parent() == sg
+				}
+				if !isLocal {
+					continue
+				}
+				n++
+				guardVerdict(m, r, "C14.R6", fmt.Sprintf("SyncGroup REBALANCE_IN_PROGRESS reply #%d is given only to a group that is not Stable", n), sg, call.(ssa.Instruction), notStable)
+			}
+			if n == 0 {
+				r.unresolved("C14.R6", "SyncGroup REBALANCE_IN_PROGRESS replies", "none found")
+			}
+		}
+	}
+
 	// ---- R5
 	r.rule("C14.R5", "after delete(members, k) every path to return clears/re-elects the leader (store to leaderID, ensureLeader()), has checked leaderID != k, or deletes the whole group; startRebalance re-validates the leader unconditionally", 4)
 	checkLeaderAfterDelete(m, r, "C14.R5")
@@ -861,4 +925,86 @@ func removalReported(m *Module, r *Report, rule string, fn *ssa.Function, dels [
 		}
 	}
 	_ = rets
+}
+
+// checkPersistUnderLock: a snapshot written outside c.mu can land after a later one and put an old
+// generation (with members that were fenced since) back into the store; a coordinator that reloads
+// it accepts their stale commits. Every store write of group state happens under GroupCoordinator.mu,
+// locally or at every call site of the helper that performs it (recursively).
+func checkPersistUnderLock(m *Module, r *Report, rule string) {
+	mu := pkgBrokerLib + ".GroupCoordinator.mu"
+	callers, _ := buildCallers(m)
+	locks := map[*ssa.Function]*fnLocks{}
+	get := func(fn *ssa.Function) *fnLocks {
+		if l, ok := locks[fn]; ok {
+			return l
+		}
+		l := computeLocks(fn, lockSet{})
+		locks[fn] = l
+		return l
+	}
+	var heldAtSite func(fn *ssa.Function, at ssa.Instruction, base ssa.Value, depth int) (bool, string)
+	heldAtSite = func(fn *ssa.Function, at ssa.Instruction, base ssa.Value, depth int) (bool, string) {
+		if mode, ok := get(fn).heldAt(at)[lockKey{canonBase(base), mu}]; ok && mode == 2 {
+			return true, ""
+		}
+		// the coordinator is this function's own receiver / parameter: the callers must hold it
+		pi := -1
+		for i, p := range fn.Params {
+			if ssa.Value(p) == strip(base) {
+				pi = i
+			}
+		}
+		if pi < 0 || depth > 4 {
+			return false, fmt.Sprintf("%s at %s runs without c.mu", describeInstr(at), m.Pos(at.Pos()))
+		}
+		sites := callers[fn]
+		if len(sites) == 0 {
+			return false, fmt.Sprintf("%s performs the write without c.mu and has no caller that holds it", funcName(fn))
+		}
+		for _, cs := range sites {
+			if _, isGo := cs.in.(*ssa.Go); isGo {
+				return false, fmt.Sprintf("go %s at %s", funcName(fn), m.Pos(cs.in.Pos()))
+			}
+			args := cs.in.Common().Args
+			if pi >= len(args) {
+				continue
+			}
+			if ok, why := heldAtSite(cs.caller, cs.in.(ssa.Instruction), args[pi], depth+1); !ok {
+				return false, fmt.Sprintf("%s is called at %s without c.mu (%s)", fn.Name(), m.Pos(cs.in.Pos()), why)
+			}
+		}
+		return true, ""
+	}
+	n := 0
+	for _, fn0 := range m.FuncsInPkg(pkgBrokerLib) {
+		for _, fn := range withAnon(fn0) {
+			for _, call := range callsIn(fn) {
+				cc := call.Common()
+				if !cc.IsInvoke() || (cc.Method.Name() != "PutConsumerGroup" && cc.Method.Name() != "DeleteConsumerGroup") {
+					continue
+				}
+				// the admin DeleteGroups request ends the group's existence and writes no snapshot;
+				// only the snapshot path (the helper that also puts) is ordered by the mutex
+				if cc.Method.Name() == "DeleteConsumerGroup" && len(findCalls(fn, "~metadata.Store).PutConsumerGroup")) == 0 {
+					continue
+				}
+				// the store is a field of the coordinator
+				_, f, base, ok := fieldOf(cc.Value)
+				if !ok || f != "store" {
+					continue
+				}
+				n++
+				key := fmt.Sprintf("%s in %s runs under the coordinator's mutex", cc.Method.Name(), fn.Name())
+				if okH, why := heldAtSite(fn, call.(ssa.Instruction), base, 0); okH {
+					r.ok(rule, key, m.Pos(call.Pos()), "")
+				} else {
+					r.viol(rule, key, m.Pos(call.Pos()), why+": a delayed snapshot can overwrite a newer one, restoring a generation and members that were already fenced")
+				}
+			}
+		}
+	}
+	if n == 0 {
+		r.unresolved(rule, "group state writes", "none found")
+	}
 }
